@@ -24,6 +24,8 @@ def gen_cases(tier, seed):
     # names and field values that look like protocol words (FAIL, OKAY, DONE, DENT, ...), with WRTE boundaries right behind the record headers / ids
     for i in range(160 if tier == "quick" else 2000):
         yield {"kind": "words", "op": ("list", "stat")[(i // 2) % 2], "impl": ("sync", "async")[i % 2], "seed": "%d:w%d" % (seed, i)}
+    for i in range(40 if tier == "quick" else 400):
+        yield {"kind": "slowfirst", "op": ("list", "stat")[(i // 2) % 2], "impl": ("sync", "async")[i % 2], "seed": "%d:sf%d" % (seed, i)}
     for i in range(8 if tier == "quick" else 60):
         yield {"kind": "cut", "op": ("list", "stat")[(i // 2) % 2], "impl": ("sync", "async")[i % 2], "seed": "%d:cut%d" % (seed, i), "max": 60 if tier == "quick" else 300}
 
@@ -53,18 +55,22 @@ def run_case(case):
     viol = []
     op = case["op"]
 
-    def one(split_mode, split_sizes, entries, triple, tag, slow=0.0, trailer=b""):
+    def one(split_mode, split_sizes, entries, triple, tag, slow=0.0, trailer=b"", tkw=None, reply_first=False):
         sess = gen.make_session(case["impl"], dims, case["seed"], **({"call_cost": 0.3} if slow >= 8.0 else {}))
         try:
             plan = sess.sim.sync_plan
             sess.sim.wrte_delay = slow        # a slow device: each reply WRTE comes `slow` seconds after the previous one (each wait below the limits, the whole reply far above)
             plan.split_mode = split_mode
             plan.split_sizes = split_sizes
+            if reply_first:
+                plan.early_reply = True
+                plan.reply_first = True
+            tkw = tkw or {}
             if op == "list":
                 plan.lists[b"/dir"] = entries
                 if trailer:
                     plan.list_trailer[b"/dir"] = trailer
-                out = sess.call("list", "/dir")
+                out = sess.call("list", "/dir", **tkw)
                 stats["lists"] += 1
                 if not out.ok:
                     viol.append({"mechanism": "raised:%s" % out.exc_name(), "detail": "list of %d entries (%s) raised %s" % (len(entries), tag, out.brief(140))})
@@ -78,7 +84,7 @@ def run_case(case):
                         stats["entries_compared"] += len(entries)
             else:
                 plan.stats[b"/st"] = triple
-                out = sess.call("stat", "/st")
+                out = sess.call("stat", "/st", **tkw)
                 stats["stats_"] += 1
                 if not out.ok:
                     viol.append({"mechanism": "raised:%s" % out.exc_name(), "detail": "stat (%s) raised %s" % (tag, out.brief(140))})
@@ -92,6 +98,21 @@ def run_case(case):
         finally:
             sess.dispose()
 
+    if case["kind"] == "slowfirst":
+        # a slow device that sends its whole reply (3-4 WRTEs, one every 1.5 s) BEFORE it acknowledges the request, read with a transport timeout of 2 s and a read
+        # timeout of 10 s: every single wait is below the transport timeout, the whole exchange below the read timeout
+        n = rng.choice([1, 2, 3])
+        entries = [(m, s_, t, nm[:12]) for (m, s_, t, nm) in entries_for(rng, n)]
+        triple = tuple(rng.getrandbits(32) for _ in range(3))
+        reply_len = (sum(20 + len(e[3]) for e in entries) + 20) if op == "list" else 16
+        pieces = rng.choice([3, 4])
+        dims["noise"] = []
+        dims["early_reply"] = True
+        dims["pace"] = 0.0
+        out = one("list", [reply_len // pieces + 1], entries, triple, "reply of %d bytes in %d WRTEs 1.5 s apart, all before the OKAY; transport timeout 2 s, read timeout 10 s" % (reply_len, pieces),
+                  slow=1.5, tkw={"transport_timeout_s": 2.0, "read_timeout_s": 10.0}, reply_first=True)
+        stats["slow_replies_before_the_okay"] = 1
+        return {"sig": "slowfirst|%s|%s|%d|%d" % (op, case["impl"], n, pieces), "violations": _dd(viol), "stats": stats, "sample": None}
     if case["kind"] == "words":
         words = [b"FAIL", b"OKAY", b"DONE", b"DENT", b"STAT", b"DATA", b"QUIT", b"SEND", b"RECV", b"LIST", b"CLSE", b"WRTE", b"OPEN", b"CNXN", b"AUTH", b"SYNC"]
         vals = [struct.unpack("<I", w)[0] for w in words]
